@@ -107,6 +107,11 @@ def addrLine (line : String) : String :=
     match asOptStr fds, parsePidSpec pid, asOptStr names, asNat passed, asStr a with
     | some fds, some pid, some names, some passed, some a => render (actenvLine fds pid names passed a)
     | _, _, _, _, _ => "(model-case-error)"
+  | some (.list [.atom "act3", w]) =>
+    match parseWorld w with
+    | some w => render (.list [.atom "act3", .list [.atom "reply", strAtom w.svc.vendor],
+        .list [.atom "act", strAtom "1", strAtom "varlink", .atom "t", .atom "t", .atom "t", .atom "t"]])
+    | none => "(model-case-error)"
   | some (.list [.atom "xport", w, .list (.atom "reads" :: cs), dec]) =>
     match parseWorld w, cs.mapM asBytes, parseDec dec with
     | some w, some cs, some dec => render (xportLine w cs dec)
@@ -169,6 +174,11 @@ def addrPred (prop caseLine obsLine : String) : String :=
       match asOptStr fds, parsePidSpec pid, asOptStr names, asStr a with
       | some fds, some pid, some names, some a => verdictStr (AddrPred.P_actenv fds pid names a (parseLRes r))
       | _, _, _, _ => "fail unparsable-case"
+    | .list [.atom "act3", _], .list [.atom "act3", .list (.atom "reply" :: _), act] =>
+      -- six identical runs stand for "the call was answered"; the activation facts are the point
+      let runs := ["a", "b", "c", "d", "e", "f"].map fun n => (n, AddrPred.XRes.out [])
+      verdictStr (AddrPred.P_xport runs (parseActFacts act))
+    | .list [.atom "act3", _], .list (.atom "act3" :: _) => "fail activation-from-descriptor-3-failed"
     | .list (.atom "xport" :: _), .list (.atom "xport" :: rest) =>
       let runs := rest.filterMap fun e => match e with
         | Sx.list [Sx.atom n, r] => if n == "act" || n == "noact" then none else some (n, parseXRes r)
